@@ -85,13 +85,14 @@ def model_check(module, cfg, workers=8, timeout=600, env=None, coverage=False, h
 def parse_printed(out, head):
     """Extract TLA+ values printed with PrintT(<<"head", ...>>) -- returns the raw text of each tuple."""
     res = []
-    key = f'<<"{head}"'
+    key = re.compile(r'<<\s*"' + re.escape(head) + '"')
     i = 0
     n = len(out)
     while True:
-        j = out.find(key, i)
-        if j < 0:
+        mm = key.search(out, i)
+        if not mm:
             break
+        j = mm.start()
         depth = 0
         k = j
         in_str = False
